@@ -4,7 +4,7 @@ import itertools as itt
 import string
 from typing import cast
 
-from y0.dsl import PP, Expression, One, P, Q, Sum, Variable, Zero
+from y0.dsl import PP, TARGET_DOMAIN, Expression, One, P, Q, Sum, Variable, Zero
 
 __all__ = [
     "parse_y0",
@@ -23,6 +23,7 @@ LOCALS = {
     "PP": PP,
     "One": One,
     "Zero": Zero,
+    "TARGET_DOMAIN": TARGET_DOMAIN,
 }
 
 for letter in itt.chain(string.ascii_uppercase, ["Pi", "π"]):
